@@ -90,6 +90,10 @@ func (s *Server) Run(ctx context.Context) error {
 	if s.httpServer != nil {
 		return fmt.Errorf("server is already running, run shutdown first")
 	}
+	if (s.conf.HTTP.CertFile == "") != (s.conf.HTTP.KeyFile == "") {
+		// half a TLS configuration does not fall back to plain HTTP
+		return fmt.Errorf("TLS requires both a certificate and a key, only one of them is configured")
+	}
 	s.log.Info("launching server", "addr", s.conf.HTTP.Addr)
 	hs := &http.Server{
 		Addr:              s.conf.HTTP.Addr,
